@@ -1,4 +1,5 @@
 import OomdModel.Engine
+import OomdModel.Path
 
 /-!
 # Model of a ruleset with a ruleset-level `cgroup` setting (src/oomd/engine/Ruleset.cpp)
@@ -97,11 +98,14 @@ def upsert (p : Path) (i : Inst) : List (Path × Inst) → List (Path × Inst)
 /-- `Ruleset::prerun` on an instance -/
 def instPreruns (cfg : Cfg) (p : Path) (g : Nat) : List CEv := (plugins cfg).map (CEv.pre p g)
 
-/-- the `cgroup` argument of an action copy: `args.try_emplace("cgroup", cgroup.relativePath())` -/
+/-- the instance's path written as a pattern that names exactly that path (repair path-is-not-a-pattern) -/
+def literalPattern (p : Path) : Path := String.ofList (OomdModel.Path.globEscape p.toList)
+
+/-- the `cgroup` argument of an action copy: `args.try_emplace("cgroup", <the cgroup's path, glob-escaped>)` -/
 def actionArg (cfg : Cfg) (p : Path) (a : Nat) : Path :=
   match cfg.own a with
   | some c => c
-  | none => p
+  | none => literalPattern p
 
 /-- `registerRunnableRulesetForCgroupPath`: detector groups copied with the template's arguments,
 actions re-created with `cgroup` defaulting to the instance's path, then `ruleset->prerun(context)` -/
